@@ -2,6 +2,7 @@
   Helper lemmas for property C04 (session model).
 -/
 import Tranp.Model.Session
+import Tranp.Generated.SessionState
 
 namespace Tranp.Session
 open Tranp
@@ -815,6 +816,49 @@ theorem unload_ident (s : St L) (m : ModPath) : ∀ x, x ∈ (unload L E s m).mo
       simp only [unloadOne, List.mem_filter, decide_eq_true_eq] at hx ⊢
       exact ⟨h x hx.1 hi, hx.2⟩) _ s m (fun _ _ h => h)
 
+/-- what the single removal of `m` establishes and every further single removal preserves holds after the cascade
+    (for a registered `m`; for an unregistered one `unload` does nothing, `unload_unregistered`) -/
+theorem unload_establishes (P : St L → Prop) (m : ModPath) (h0 : ∀ s, P (unloadOne L s m)) (h1 : ∀ s x, P s → P (unloadOne L s x))
+    (s : St L) (hm : m ∈ s.mods) : P (unload L E s m) := by
+  unfold unload
+  cases hl : s.mods.length with
+  | zero => simp [List.length_eq_zero_iff.1 hl] at hm
+  | succ f =>
+    simp only [unloadF, hm, if_true]
+    exact foldl_ind L P _ (fun s' d hs => unloadF_ind L E P h1 f s' d hs) _ _ (h0 s)
+
+theorem unload_unregistered (s : St L) (m : ModPath) (hm : m ∉ s.mods) : unload L E s m = s := by
+  unfold unload
+  cases s.mods.length with
+  | zero => rfl
+  | succ f => simp only [unloadF, hm, if_false]
+
+/-- the per-module entries of the session state: nothing of `m` is left in any of them after `unload m` -/
+structure Cleared (s : St L) (m : ModPath) : Prop where
+  mods : m ∉ s.mods
+  eps : alookup s.eps m = none
+  db : ∀ kv, kv ∈ s.db → modOf kv.1 ≠ m
+  completed : m ∉ s.completed
+  ident : m ∉ s.ident
+
+theorem unload_cleared (s : St L) (m : ModPath) (hm : m ∈ s.mods) : Cleared L (unload L E s m) m :=
+  unload_establishes L E (fun s' => Cleared L s' m) m
+    (fun s' => by
+      refine ⟨?_, ?_, ?_, ?_, ?_⟩
+      · simp [unloadOne]
+      · simp [unloadOne, alookup_aerase]
+      · intro kv h; simp only [unloadOne, List.mem_filter, decide_eq_true_eq] at h; exact h.2
+      · simp [unloadOne]
+      · simp [unloadOne])
+    (fun s' x h => by
+      refine ⟨?_, ?_, ?_, ?_, ?_⟩
+      · intro hx; simp only [unloadOne, List.mem_filter] at hx; exact h.mods hx.1
+      · simp only [unloadOne, alookup_aerase, h.eps]; split <;> rfl
+      · intro kv hk; simp only [unloadOne, List.mem_filter] at hk; exact h.db kv hk.1
+      · intro hx; simp only [unloadOne, List.mem_filter] at hx; exact h.completed hx.1
+      · intro hx; simp only [unloadOne, List.mem_filter] at hx; exact h.ident hx.1)
+    s hm
+
 theorem unload_inv (s : St L) (m : ModPath) (hI : Inv L E s) : Inv L E (unload L E s m) :=
   unloadF_ind L E (Inv L E) (fun s' m' h => unloadOne_inv L E s' m' h) _ s m hI
 
@@ -1517,5 +1561,55 @@ theorem poolNames (pool : List (ModPath × Desc)) (libs : List ModPath) (main : 
   libs := hlibs
   main := hmain
   imports x src t hx ht := descSrcOk src (hpool (x, src) (alookup_mem hx)) t ht
+
+/-! ## the inventory of real session state (Generated/SessionState.lean) against the model state -/
+
+section Inventory
+open Tranp.Generated.SessionState
+variable {Src Tree NV V Text : Type} (L : Lang Src Tree NV V Text)
+
+/-- the components in which `Modules.unload m` leaves nothing of `m` / which it does not touch -/
+def clearedFields : List Field := [.mods, .eps, .db, .completed, .ident]
+def keptFields : List Field := [.mainSrc, .ast, .stored, .deps, .proc]
+
+/-- nothing of `m` is left in component `f` -/
+def ClearedAt (f : Field) (s : St L) (m : ModPath) : Prop :=
+  match f with
+  | .mods => m ∉ s.mods
+  | .eps => alookup s.eps m = none
+  | .db => ∀ kv, kv ∈ s.db → modOf kv.1 ≠ m
+  | .completed => m ∉ s.completed
+  | .ident => m ∉ s.ident
+  | _ => False
+
+/-- component `f` is the same in both states -/
+def KeptAt (f : Field) (s s' : St L) : Prop :=
+  match f with
+  | .mainSrc => s'.mainSrc = s.mainSrc
+  | .ast => s'.ast = s.ast
+  | .stored => s'.stored = s.stored
+  | .deps => s'.deps = s.deps
+  | .proc => s'.proc = s.proc
+  | _ => False
+
+def verdictField : Verdict → Option Field
+  | .reset f | .owned f | .content f | .stack f => some f
+  | _ => none
+
+/-- the audited verdict of a site names a component with the matching behaviour under `unload` -/
+def siteFits (x : Site) : Bool :=
+  match x.verdict with
+  | .reset f | .owned f => decide (f ∈ clearedFields)
+  | .content f | .stack f => decide (f ∈ keptFields)
+  | _ => true
+
+def isReset : Verdict → Bool
+  | .reset _ => true
+  | _ => false
+
+def initName : List Char := ['_', '_', 'i', 'n', 'i', 't', '_', '_']
+def unloadNames : List (List Char) := [['u', 'n', 'l', 'o', 'a', 'd'], ['c', 'l', 'e', 'a', 'r']]
+
+end Inventory
 
 end Tranp.Session
